@@ -16,6 +16,7 @@ CONSTANTS
   MaxOps = 4
   MaxLive = 100
   WithRestart = TRUE
+  SimPrint = FALSE
   DelW = 1
   RestartW = 1
   PartialOverlapChecked = TRUE
